@@ -558,21 +558,3 @@ func VHAvlFib() {
 		vCover("fib: add")
 	}
 }
-
-// VHAvlString: String() lists the values in order (concrete values).
-func VHAvlString() {
-	t := NewOrdered[int]()
-	for _, v := range []int{5, -2, 9, 5, 0, 12} {
-		t.Add(v)
-	}
-	t.Remove(9)
-	in := t.SliceInOrder()
-	got := vParseInts(t.String())
-	vAssert(len(got) == len(in), "String lists every value")
-	for i := range got {
-		if i < len(in) {
-			vAssert(got[i] == in[i], "String lists the values in order")
-		}
-	}
-	vCover("avl string done")
-}
